@@ -1040,6 +1040,13 @@ class Gen(object):
         f = self.rng.choice(['negative', 'absolute', 'square', 'floor', 'sign', 'mean', 'std', 'var',
                              'maximum', 'minimum', 'fmod'])
         op = {'op': 'npfunc', 'slot': k, 'f': f}
+        if f in ('mean', 'std', 'var') and self.rng.random() < 0.5:
+            # ... preferably on an object that names a template for its results (config.op_out_like)
+            k2, _ = self.pick(lambda o: self.is_real(o) and o.config.op_out_like is not None)
+            if k2 is not None:
+                op['slot'] = k2
+                op['route'] = 'method'
+                return op
         if f in ('maximum', 'minimum', 'fmod'):
             kb, _ = self.pick(self.is_real, prefer=lambda o: o.n_word <= 24)
             op['b'] = kb if kb is not None else k
@@ -1347,7 +1354,7 @@ class Gen(object):
         if k is None:
             return self.g_new()
         op = {'op': 'acc_copy', 'slot': k, 'field': r.choice(REG_FIELDS),
-              'how': r.choice(['deepcopy', 'copy.deepcopy', 'invert', 'flatten', 'fxp_like'])}
+              'how': r.choice(['deepcopy', 'copy.deepcopy', 'invert', 'flatten', 'fxp_like', 'like_kw', 'like_method'])}
         if r.random() < 0.3:
             op['both'] = r.choice([f for f in REG_FIELDS if f != op['field']])
         return op
@@ -1806,8 +1813,15 @@ class Gen(object):
         (raised BEFORE the store: new sizes over old codes), then a conversion between that object and
         one that still has its old format - in either direction, by an indexed assignment."""
         r = self.rng
-        nw = r.randint(5, 16)
-        old = [r.random() < 0.6, nw, r.randint(1, nw - 2)]
+        wide = r.random() < 0.35
+        if wide:
+            # a wide word holding a large code, shrunk (aborted) to a few bits: afterwards the codes exceed
+            # the declared word by far, and the re-scaled code of a later conversion leaves int64
+            nw = r.randint(44, 52)
+            old = [True, nw, r.choice([0, 0, r.randint(0, 6)])]
+        else:
+            nw = r.randint(5, 16)
+            old = [r.random() < 0.6, nw, r.randint(1, nw - 2)]
         x_is_array = False       # (the stale object is only ever a source: see engine, source_only)
         op1 = self.g_new(fmt=old, arr=x_is_array, ncb=1, val_kind=r.choice(['hi', 'near_hi', 'lo', 'near_lo', 'hi']))
         op1['kw'] = {k: v for k, v in op1['kw'].items() if k in ('rounding', 'overflow')}
@@ -1829,11 +1843,15 @@ class Gen(object):
             k = kx()
             if k is None:
                 return self.g_call()
+            if wide:
+                return {'op': 'resize', 'slot': k, 'fmt': [None, r.randint(4, 12), None]}
             d = r.randint(1, 4)
             return {'op': 'resize', 'slot': k, 'fmt': r.choice([[None, None, old[2] + d], [not old[0], None, old[2] + d],
                                                                [None, None, old[2] + d]])}
 
         def other():
+            if wide:
+                return self.g_new(fmt=[True, 52, old[2] + r.randint(14, 40)], arr=r.random() < 0.5, ncb=0, val_kind='exact')
             return self.g_new(fmt=old, arr=not x_is_array, ncb=0, val_kind='exact')
 
         def convert():
@@ -1844,7 +1862,18 @@ class Gen(object):
             ky = self.cands().index(y)
             if x_is_array:
                 return {'op': 'setitem_from', 'slot': k, 'src': ky, 'index': 0}       # stale[i] = other
-            return {'op': 'setitem_from', 'slot': ky, 'src': k, 'index': 0}           # other[i] = stale
+            yo = self.w.slots[y].obj
+            q = r.random()
+            if q < 0.35 or np.asarray(yo.val).ndim == 0:
+                # the other routes that take the stale object as their source
+                return r.choice([{'op': 'equal', 'slot': ky, 'src': {'slot': k}},
+                                 {'op': 'equal', 'slot': ky, 'src': {'slot': k}},
+                                 {'op': 'set_from', 'slot': ky, 'src': k, 'via': r.choice(['call', 'set_val'])},
+                                 {'op': 'new_from', 'src': k, 'fmt': [bool(yo.signed), yo.n_word, yo.n_frac], 'kw': {}}])
+            op = {'op': 'setitem_from', 'slot': ky, 'src': k, 'index': 0}           # other[i] = stale
+            if r.random() < 0.4:
+                op['via'] = r.choice(['equal', 'set_val'])
+            return op
         self.queue.extend([arm, resize, other, convert])
         return op1
 
